@@ -45,16 +45,17 @@ pub mod solver {
     }
 }
 
-/// bounded stand-in: powi(x, -n) is bit-identical to powi(x, n).recip() for 0 < n <= 3 (real operators, cvc5)
-fn powi_neg_case() {
-    let x = any_tf(); let n = any_i32!();
-    vassume!(n > 0 && n <= 3);
+/// bounded stand-in: powi(x, -n) is bit-identical to powi(x, n).recip() for a fixed exponent (real operators, cvc5:
+/// with a constant n both sides unroll to the same straight-line computation)
+fn powi_neg_case(n: i32) {
+    let x = any_tf();
     vassert!(same_tf(&x.powi(-n), &x.powi(n).recip()), "powi(x, -n) == powi(x, n).recip() bit for bit");
 }
 
 harnesses! {
-    #[kani::solver(cvc5)] #[kani::unwind(5)]
-    fn powi_neg_is_recip_small() { powi_neg_case() }
+    #[kani::solver(cvc5)] #[kani::unwind(5)] fn powi_neg_is_recip_n2() { powi_neg_case(2) }
+    #[kani::solver(cvc5)] #[kani::unwind(5)] fn powi_neg_is_recip_n3() { powi_neg_case(3) }
+    #[kani::solver(cvc5)] #[kani::unwind(5)] fn powi_neg_is_recip_n6() { powi_neg_case(6) }
 
     /// exact points and the structure of powi on large exponents (ground, native)
     fn exact_points() {
